@@ -223,7 +223,7 @@ func checkC18(e *core.Env) {
 					}
 					unchanged("cross-representation copy")
 					e.Eval(sig("cross"), true)
-					} else {
+				} else {
 					// adapters that do not promise conversions between representations may refuse a dynamic
 					// destination, but they neither crash on one nor leave a wrong copy behind
 					for _, from := range []string{"gen", "dyn"} {
@@ -244,7 +244,7 @@ func checkC18(e *core.Env) {
 						}
 						e.Eval(sig("copy-"+from+"-to-dyn"), true)
 					}
-					}
+				}
 			}
 		}
 		// refusals
